@@ -113,7 +113,7 @@ pub fn register(l: &mut Vec<Obl>) {
             let w = <$W as palette::white_point::WhitePoint<f64>>::get_xyz();
             let cond = crate::reference::cam16::conditions([w.x * 100.0, w.y * 100.0, w.z * 100.0], $la, 20.0, $sur);
             obl!(l; concat!("c16_forward_vs_published_", $key), "C16", $tier,
-                concat!("the forward model equals the published CAM16 equations (Li et al. 2017, Appendix A, transcribed independently incl. the viewing-condition quantities): lightness J and brightness Q within 1e-6 relative, chroma C, colourfulness M and saturation s within 1e-5 relative + 1e-6, for every XYZ in [0.05, 1]^3; viewing conditions ", $key),
+                concat!("the forward model equals the published CAM16 equations (Li et al. 2017, Appendix A, transcribed independently incl. the viewing-condition quantities): lightness J and brightness Q within 1e-6 relative, chroma C, colourfulness M and saturation s within 1e-5 relative + 1e-6, hue angle h within 1e-6 degrees modulo 360, for every XYZ in [0.05, 1]^3; viewing conditions ", $key),
                 ["Cam16::from_xyz", "cam16::math::xyz_to_cam16", "cam16::math::prepare_parameters", "cam16::math::DependentParameters::adapt"],
                 [var("x", 0.05, 1.0), var("y", 0.05, 1.0), var("z", 0.05, 1.0)];
                 |v| {
@@ -128,6 +128,8 @@ pub fn register(l: &mut Vec<Obl>) {
                     r.goal("chroma", rel(got.chroma, want.c, 1e-5, 1e-6));
                     r.goal("colorfulness", rel(got.colorfulness, want.m, 1e-5, 1e-6));
                     r.goal("saturation", rel(got.saturation, want.s, 1e-5, 1e-6));
+                    // hue angle h = atan2(b, a) in degrees (modulo 360), step 4 of the paper
+                    r.goal("hue", hue_close(got.hue.into_raw_degrees(), want.b.atan2_(want.a) * T::k(180.0 / core::f64::consts::PI), 1e-6));
                     r
                 });
         }};
@@ -135,6 +137,8 @@ pub fn register(l: &mut Vec<Obl>) {
     forward_vs_li!("d65_la40_average", wp::D65, 40.0, palette::cam16::Surround::Average, (1.0, 0.69, 1.0), Tier::Quick);
     forward_vs_li!("d65_la40_dim", wp::D65, 40.0, palette::cam16::Surround::Dim, (0.9, 0.59, 0.9), Tier::Quick);
     forward_vs_li!("d50_la64_dark", wp::D50, 64.0, palette::cam16::Surround::Dark, (0.8, 0.525, 0.8), Tier::Quick);
+    forward_vs_li!("d65_la318_dim", wp::D65, 318.0, palette::cam16::Surround::Dim, (0.9, 0.59, 0.9), Tier::Quick);
+    forward_vs_li!("d50_la4_average", wp::D50, 4.0, palette::cam16::Surround::Average, (1.0, 0.69, 1.0), Tier::Quick);
 
     // inverse model against the published equations (symx/src/reference/cam16.rs `inverse`), per partial type, per case of
     // the paper's step 3 and per viewing condition
@@ -175,5 +179,10 @@ pub fn register(l: &mut Vec<Obl>) {
     inverse_all_arcs!("jsh_d50_la64_dark", wp::D50, 64.0, palette::cam16::Surround::Dark, dark, Cam16Jsh, J, S, (20.0, 100.0), (5.0, 60.0), Tier::Quick);
     inverse_all_arcs!("qch_d65_la40_dim", wp::D65, 40.0, palette::cam16::Surround::Dim, dim, Cam16Qch, Q, C, (60.0, 190.0), (1.0, 60.0), Tier::Quick);
     inverse_all_arcs!("qmh_d50_la64_dark", wp::D50, 64.0, palette::cam16::Surround::Dark, dark, Cam16Qmh, Q, M, (60.0, 190.0), (1.0, 50.0), Tier::Quick);
+    // further viewing conditions (bright and very dark adapting field) for the lightness-based types
+    inverse_all_arcs!("jch_d65_la318_dim", wp::D65, 318.0, palette::cam16::Surround::Dim, dim, Cam16Jch, J, C, (20.0, 100.0), (1.0, 60.0), Tier::Quick);
+    inverse_all_arcs!("jmh_d50_la4_average", wp::D50, 4.0, palette::cam16::Surround::Average, avg, Cam16Jmh, J, M, (20.0, 100.0), (1.0, 40.0), Tier::Quick);
+    inverse_all_arcs!("jsh_d65_la318_average", wp::D65, 318.0, palette::cam16::Surround::Average, avg, Cam16Jsh, J, S, (20.0, 100.0), (5.0, 60.0), Tier::Quick);
+    inverse_all_arcs!("jch_d50_la4_dark", wp::D50, 4.0, palette::cam16::Surround::Dark, dark, Cam16Jch, J, C, (20.0, 100.0), (1.0, 50.0), Tier::Quick);
     inverse_all_arcs!("qsh_d65_la40_average", wp::D65, 40.0, palette::cam16::Surround::Average, avg, Cam16Qsh, Q, S, (60.0, 190.0), (5.0, 60.0), Tier::Quick);
 }
